@@ -77,7 +77,7 @@ def shards(tier, seed):
     out = []
     for i, (a, b) in enumerate(PAIRS):
         out.append({"part": "pair", "a": a, "b": b, "refs": refs, "i": i})
-    out.append({"part": "stress", "refs": refs, "rounds": 3 if tier == "quick" else 20})
+    out.append({"part": "stress", "refs": refs, "rounds": 4 if tier == "quick" else 20})
     return out
 
 
@@ -156,6 +156,41 @@ def run_pair(ctx, desc):
         sched.uninstall()
 
 
+class YieldInjector:
+    """LINE callback that yields the GIL (time.sleep(0)) at seeded random library lines in every thread:
+    many more switch points than the switch interval alone produces."""
+    TOOL = 4
+
+    def __init__(self, prefix, seed, p=0.03):
+        self.prefix, self.p = prefix, p
+        self.rnd = random.Random(seed)
+        self.yields = 0
+        self.lock = threading.Lock()
+
+    def start(self):
+        mon = sys.monitoring
+        mon.use_tool_id(self.TOOL, "rv-yield")
+
+        def cb(code, line):
+            if not code.co_filename.startswith(self.prefix):
+                return mon.DISABLE
+            with self.lock:
+                hit = self.rnd.random() < self.p
+                if hit:
+                    self.yields += 1
+            if hit:
+                time.sleep(0)
+
+        mon.register_callback(self.TOOL, mon.events.LINE, cb)
+        mon.set_events(self.TOOL, mon.events.LINE)
+
+    def stop(self):
+        mon = sys.monitoring
+        mon.set_events(self.TOOL, 0)
+        mon.register_callback(self.TOOL, mon.events.LINE, None)
+        mon.free_tool_id(self.TOOL)
+
+
 def run_stress(ctx, desc):
     refs = desc["refs"]
     insts = {}
@@ -163,8 +198,12 @@ def run_stress(ctx, desc):
         C.execute(c, insts)
     old = sys.getswitchinterval()
     sys.setswitchinterval(1e-6)
+    inj = None
     try:
         for rnd_i in range(desc["rounds"]):
+            if rnd_i % 2 == 1:
+                inj = YieldInjector(repo_path() + "/dateparser/", ctx.seed * 100 + rnd_i)
+                inj.start()
             results = []
             lock = threading.Lock()
 
@@ -193,10 +232,16 @@ def run_stress(ctx, desc):
                                   {"pair": "stress", "who": name, "file": None,
                                    "exc": out[1] if out[0] == "exc" else None})
             ctx.count("stress_calls", len(results))
+            if inj is not None:
+                inj.stop()
+                ctx.count("stress_yields_injected", inj.yields)
+                inj = None
             if not bad:
                 ctx.nontrivial("stress", rnd_i)
                 ctx.count("stress_rounds_clean")
     finally:
+        if inj is not None:
+            inj.stop()
         sys.setswitchinterval(old)
 
 
